@@ -123,19 +123,27 @@ func tkCancel(origin string, cc *vgirpc.CallContext) error {
 func (s *TkStateP) Produce(_ context.Context, out *vgirpc.OutputCollector, cc *vgirpc.CallContext) error {
 	return tkProduce(s.Origin, &s.Count, s.Limit, out, cc)
 }
-func (s *TkStateP) OnCancel(_ context.Context, cc *vgirpc.CallContext) error { return tkCancel(s.Origin, cc) }
+func (s *TkStateP) OnCancel(_ context.Context, cc *vgirpc.CallContext) error {
+	return tkCancel(s.Origin, cc)
+}
 func (s *TkStateE) Exchange(_ context.Context, in arrow.RecordBatch, out *vgirpc.OutputCollector, cc *vgirpc.CallContext) error {
 	return tkExchange(s.Origin, &s.Count, in, out, cc)
 }
-func (s *TkStateE) OnCancel(_ context.Context, cc *vgirpc.CallContext) error { return tkCancel(s.Origin, cc) }
+func (s *TkStateE) OnCancel(_ context.Context, cc *vgirpc.CallContext) error {
+	return tkCancel(s.Origin, cc)
+}
 func (s *TkStateB) Produce(_ context.Context, out *vgirpc.OutputCollector, cc *vgirpc.CallContext) error {
 	return tkProduce(s.Origin, &s.Count, s.Limit, out, cc)
 }
 func (s *TkStateB) Exchange(_ context.Context, in arrow.RecordBatch, out *vgirpc.OutputCollector, cc *vgirpc.CallContext) error {
 	return tkExchange(s.Origin, &s.Count, in, out, cc)
 }
-func (s *TkStateB) OnCancel(_ context.Context, cc *vgirpc.CallContext) error { return tkCancel(s.Origin, cc) }
-func (s *TkStateN) OnCancel(_ context.Context, cc *vgirpc.CallContext) error { return tkCancel(s.Origin, cc) }
+func (s *TkStateB) OnCancel(_ context.Context, cc *vgirpc.CallContext) error {
+	return tkCancel(s.Origin, cc)
+}
+func (s *TkStateN) OnCancel(_ context.Context, cc *vgirpc.CallContext) error {
+	return tkCancel(s.Origin, cc)
+}
 
 type tkSess struct{ N int }
 
@@ -1308,11 +1316,57 @@ func (w *tkWorld) opSticky(l string, f []string, kv map[string]string) {
 			w.oracle("C13", "cross-kind-accepted-"+base.kind+"-as-session", fmt.Sprintf("%q: a %s token resumed a session (%s)", l, base.kind, resumed))
 		}
 		if base.kind == "session" && alt && resumed != "" {
-			rawA, _, okA := tkDecodeAny(sess)
+			rawA, _, okA := tkDecodeAny([]byte(strings.TrimSpace(string(sess)))) // the header value is TrimSpace'd
 			rawB, _, okB := tkDecodeAny(base.tok)
 			if !(okA && okB && bytes.Equal(rawA, rawB)) {
 				w.oracle("C13", "altered-session-token-accepted", fmt.Sprintf("%q: altered session token resumed a session (%s)", l, resumed))
 			}
 		}
 	}
+}
+
+// ---------------------------------------------------------------- generator helpers shared by C12–C15
+
+func tkKeyOfLen(r *Rng, n int) string { return X(r.Bytes(n)) }
+
+func tkInstLine(name, key string, ttlMs, cache int, sticky bool, serverID string, rehydrate, hook bool) string {
+	b := func(v bool) int {
+		if v {
+			return 1
+		}
+		return 0
+	}
+	return fmt.Sprintf("inst %s key=%s ttl=%d cache=%d sticky=%d sid=%s rehydrate=%d hook=%d", name, key, ttlMs, cache, b(sticky), XS(serverID), b(rehydrate), b(hook))
+}
+
+func indexOf(xs []string, x string) int {
+	for i, y := range xs {
+		if y == x {
+			return i
+		}
+	}
+	return 0
+}
+
+func b2i(b bool) int {
+	if b {
+		return 1
+	}
+	return 0
+}
+
+func sample(r *Rng, xs []string, k int) []string {
+	if len(xs) <= k {
+		return xs
+	}
+	out := make([]string, 0, k)
+	idx := map[int]bool{}
+	for len(out) < k {
+		i := r.Intn(len(xs))
+		if !idx[i] {
+			idx[i] = true
+			out = append(out, xs[i])
+		}
+	}
+	return out
 }
